@@ -108,6 +108,7 @@ prop("C26",
       H("c26_batch_size_parity", "h_basic", functions=["calculate_safe_batch_size"], bounds="current, available <= 2^32"),
       H("c26_single_step_majorities_intersect", "h_basic", functions=["majority_count"], bounds="n <= 2^32, k <= 1"),
       H("c26_allowed_single_promotion_is_safe", "h_basic", functions=["calculate_safe_batch_size", "majority_count"], bounds="1 <= n <= 64 voters, <= 64 ready learners, batch k <= 1"),
+      H("c26_allowed_single_promotion_is_safe_wide", "h_basic", tier="thorough", timeout=3600, functions=["calculate_safe_batch_size", "majority_count"], bounds="1 <= n <= 2^40 voters, <= 2^40 ready learners, batch k <= 1"),
       H("c26_allowed_batch_promotion_is_safe", "h_basic", functions=["calculate_safe_batch_size", "majority_count"], bounds="1 <= n <= 64 voters, <= 64 ready learners, batch k >= 2")])
 
 prop("C34",
@@ -197,7 +198,8 @@ prop("C25",
      ["the iterate-then-read-revision ordering of scan_prefix (FFI) -- i.e. the revision half of the property is NOT decided",
       "keys/prefixes longer than 3 bytes"],
      [TRUST_TOOL, "prefix_successor is checked as a verbatim source slice (the file needs the rocksdb FFI feature to compile as a whole); sha256 of the slice is in the evidence"],
-     [H("c25_prefix_scan_bound", "h_kernels", loops=6, functions=["prefix_successor (source slice)"], bounds="prefix 1..=3 bytes, key 0..=3 bytes, all byte values")])
+     [H("c25_prefix_scan_bound", "h_kernels", loops=6, functions=["prefix_successor (source slice)"], bounds="prefix 1..=3 bytes, key 0..=3 bytes, all byte values"),
+      H("c25_prefix_scan_bound_4bytes", "h_kernels", tier="thorough", loops=7, timeout=3600, functions=["prefix_successor (source slice)"], bounds="prefix 1..=4 bytes, key 0..=4 bytes, all byte values")])
 
 
 prop("C13",
@@ -229,7 +231,7 @@ prop("C37",
         bounds="put with TTL Some(0), 1-byte key/value", stubs=[FMT])])
 
 prop("WIP", "work in progress batch", [], [], [], [
-    H("c07_heartbeat_commit_rule", "h_kernels", timeout=900, loops=6),
+    H("c01_candidate_stepdown_keeps_vote", "h_more", timeout=1200, loops=9),
 ])
 prop("PROBE", "probes", [], [], [], [
     H("probe_default_cfg", "probe", timeout=600),
